@@ -18,24 +18,47 @@ ASSUMPTIONS = ["all children exit 0 (failures are C03's subject)", "--jobs 1..2,
                "git disabled"]
 
 
-def make(n, kinds, orders="rev", jobs_hi=2):
+def make(n, kinds, orders="rev", jobs_hi=2, atleast=False):
     def fn(g):
         specs = graphs.sym_graph(g, n, kinds, orders=orders)
         root = n - 1
-        again = g.flag("again")
+        at_least = None
+        vcommit = {}
+        if atleast:
+            from props import c05
+            mode = ("default", "again", "at-least-c0", "at-least-c1")[g.choose("flagmode", 4)]
+            again = mode == "again"
+            if mode.startswith("at-least"):
+                at_least = c05.H(int(mode[-1]))
+        else:
+            again = g.flag("again")
         has_version = {j for j, s in enumerate(specs) if s.kind == "run_experiment" and g.flag("c%d" % j)}
         jobs = g.choose("jobs", jobs_hi) + 1
-        sched = graphs.SymSched(g, all_ok=True, on_spawn=graphs.output_writer)
-        proj = hrun.Project()
+        proj = hrun.Project(config="" if atleast else "disable_git = true\n")
         proj.write_tasks(specs)
-        for j in has_version:
-            proj.add_version(specs[j].ident, 100 + j)
+        if atleast:
+            # linear history c0 <- c1 = HEAD; each recorded version was made at c0 or at c1
+            dag = c05.Dag(g, 2)
+            sched = c05.GitSched(g, "dag", dag, 1, False)
+            for j in sorted(has_version):
+                vcommit[j] = g.choose("vc%d" % j, 2)
+                proj.add_version(specs[j].ident, 100 + j, commit=c05.H(vcommit[j]))
+        else:
+            sched = graphs.SymSched(g, all_ok=True, on_spawn=graphs.output_writer)
+            for j in has_version:
+                proj.add_version(specs[j].ident, 100 + j)
         rows_before = proj.index_rows()
-        res = graphs.run_graph(g, specs, root, again=again, jobs=jobs, sched=sched, proj=proj)
+        res = graphs.run_graph(g, specs, root, again=again, jobs=jobs, sched=sched, proj=proj, at_least=at_least)
         try:
             graphs.crash_check(g, res, specs)
-            D = graphs.describe(specs) + ["again=%s has_version=%s" % (again, sorted(has_version))]
+            D = graphs.describe(specs) + ["again=%s at_least=%s has_version=%s made_at=%s" % (again, at_least and at_least[:2], sorted(has_version), vcommit)]
             cached = set() if again else has_version
+            if at_least is not None:
+                # --at-least C re-runs versions made at a strict ancestor of C
+                C = int(at_least[1])
+                cached = {j for j in has_version if not (vcommit[j] < C)}
+                if any(j in has_version and vcommit[j] < C for j in graphs.reachable(specs, root)):
+                    g.goal("--at-least forces a cached experiment to re-run")
             need = graphs.needed(specs, root, cached)
             info = hrun.parse_run_output(res)
             ii = graphs.ident_index(specs)
@@ -94,7 +117,11 @@ def spaces(tier):
     sp = [Space("n3-allkinds", make(3, graphs.ALL_KINDS),
                 "N<=3, every edge set, deps forward/reversed, 4 kinds, parallelizable bits, cache bit per experiment, "
                 "{default, --again}, jobs 1..2, all children exit 0", depth=7, goals=goals,
-                outside=["N>3", "--at-least (see space n3-atleast)", "several versions per task (C05)"])]
+                outside=["N>3", "several versions per task (C05)"]),
+          Space("n3-atleast", make(3, ("run_experiment", "run_command"), jobs_hi=1, atleast=True),
+                "N<=3, kinds {experiment, command}, git history c0 <- c1 = HEAD through the fake git, each recorded version made at "
+                "c0 or c1, flags {default, --again, --at-least c0, --at-least c1}", depth=7,
+                goals=["--at-least forces a cached experiment to re-run"])]
     if tier == "thorough":
         sp.append(Space("n4-exp-cmd", make(4, ("run_experiment", "run_command"), jobs_hi=1),
                         "N=4, kinds {run_experiment, run_command}, cache bits, {default,--again}, jobs 1", depth=9,
